@@ -7,6 +7,7 @@ import "fmt"
 type flockObj struct {
 	path string
 	held bool
+	ino  int // the lock is on the open file description's inode, not on the path
 }
 
 func registerFlockMmapExternals() {
@@ -29,16 +30,24 @@ func registerFlockMmapExternals() {
 				return Tuple{false, e.errNotExist()}
 			}
 			e.beforeMutation("create " + fl.path)
-			e.nodes[fl.path] = &FSNode{file: e.newFile(), mode: 0600}
-			e.log(FSOp{Kind: "create", Path: fl.path})
 		} else {
 			it.sched.yield("flock")
 		}
-		if cur, ok := e.locks[fl.path]; ok && cur.held {
+		// open(O_CREATE) is atomic: look the path up again after the switch point, create if (still/now) missing
+		node, ok := e.nodes[fl.path]
+		if !ok {
+			node = &FSNode{file: e.newFile(), mode: 0600}
+			e.nodes[fl.path] = node
+			e.log(FSOp{Kind: "create", Path: fl.path})
+		}
+		ino := node.file.ino
+		key := fmt.Sprintf("ino:%d", ino)
+		if cur, ok := e.locks[key]; ok && cur.held {
 			return Tuple{false, Iface{}}
 		}
 		fl.held = true
-		e.locks[fl.path] = &flockState{path: fl.path, held: true}
+		fl.ino = ino
+		e.locks[key] = &flockState{path: fl.path, held: true}
 		e.log(FSOp{Kind: "lock", Path: fl.path})
 		return Tuple{true, Iface{}}
 	}
@@ -50,10 +59,17 @@ func registerFlockMmapExternals() {
 		}
 		fr.it.sched.yield("funlock")
 		fl.held = false
-		delete(e.locks, fl.path)
+		delete(e.locks, fmt.Sprintf("ino:%d", fl.ino))
 		e.log(FSOp{Kind: "unlock", Path: fl.path})
 		return Iface{}
 	}
+	externals["(*github.com/gofrs/flock.Flock).Path"] = func(fr *Frame, a []Value) Value {
+		return hostOf(a[0], "flock").X.(*flockObj).path
+	}
+	externals["(*github.com/gofrs/flock.Flock).Locked"] = func(fr *Frame, a []Value) Value {
+		return hostOf(a[0], "flock").X.(*flockObj).held
+	}
+	externals["(*github.com/gofrs/flock.Flock).String"] = externals["(*github.com/gofrs/flock.Flock).Path"]
 	externals["(*github.com/gofrs/flock.Flock).Close"] = externals["(*github.com/gofrs/flock.Flock).Unlock"]
 
 	externals["github.com/edsrzf/mmap-go.MapRegion"] = func(fr *Frame, a []Value) Value {
